@@ -95,6 +95,8 @@ MoveOk(ev) ==
 
 \* ---- slerp at the nine parameters j/8 -----------------------------------------------------------------------
 SlerpTol(ev) == IF ev.f = 32 THEN DyPow2(-12) ELSE DyPow2(-34)
+ChebBits(ev) == IF ev.f = 32 THEN 64 ELSE 112          \* working precision of the Chebyshev recurrences: 64 * 2^-bits is far below the tolerance
+Ch(ev, n, c) == ChebT(n, c, ChebBits(ev))
 Slerp8Ok(ev) ==
     LET q0 == DV(ev.q0) q1r == DV(ev.q1) t == SlerpTol(ev)
         D0 == VDot(q0, q1r)
@@ -106,9 +108,9 @@ Slerp8Ok(ev) ==
            c == VDot(q0, r[2]) IN
        /\ \A j \in 1..9 : DyNear(VSq(r[j]), Dy1, t)
        /\ DyLe(VSq(VSub(r[1], q0)), DySq(t)) /\ DyLe(VSq(VSub(r[9], q1)), DySq(t))    \* both end points are reached
-       /\ DyNear(Cheb(8, c), D, t)
-       /\ \A j \in 0..8 : /\ DyNear(VDot(q0, r[j + 1]), Cheb(j, c), t)
-                          /\ DyNear(VDot(q1, r[j + 1]), Cheb(8 - j, c), t)
+       /\ DyNear(Ch(ev, 8, c), D, t)
+       /\ \A j \in 0..8 : /\ DyNear(VDot(q0, r[j + 1]), Ch(ev, j, c), t)
+                          /\ DyNear(VDot(q1, r[j + 1]), Ch(ev, 8 - j, c), t)
 
 \* ---- rotate_towards by more than the remaining angle -------------------------------------------------------
 RotReachOk(ev) ==
@@ -242,14 +244,59 @@ QuatMatOk(ev) ==
        /\ DyNear(VSq(q), Dy1, DyPow2(6 - p))
        /\ MatNear(QuatMat(q), DM3(ev.m), DyPow2(8 - p))
 
+\* ---- results defined through a square root or a quotient, judged through the polynomial relation they satisfy (C02) ----------
+\* length, distance: got >= 0 and got^2 = |.|^2;  length_recip: got^2 |a|^2 = 1;  project_onto: got (b.b) = b (a.b);
+\* reject_from: got (b.b) = a (b.b) - b (a.b);  all within 2^5 u relative to the magnitudes combined
+SqrtRelOk(ev) ==
+    LET p == P(ev) rel == DyPow2(5 - p) IN
+    CASE ev.op = "length" -> LET a == DV(ev.a) g == DecDy(ev.got) IN
+                             IsFiniteWire(ev.got) /\ ~DyIsNeg(g) /\ DyNear(DySq(g), VSq(a), DyMul(rel, VSq(a)))
+      [] ev.op = "distance" -> LET d == VSub(DV(ev.a), DV(ev.b)) g == DecDy(ev.got) e1 == DyMul(rel, DyAdd(VSq(DV(ev.a)), VSq(DV(ev.b)))) IN
+                             IsFiniteWire(ev.got) /\ ~DyIsNeg(g) /\ DyNear(DySq(g), VSq(d), e1)
+      [] ev.op = "length_recip" -> LET a == DV(ev.a) g == DecDy(ev.got) IN
+                             IsFiniteWire(ev.got) /\ DyIsPos(g) /\ DyNear(DyMul(DySq(g), VSq(a)), Dy1, rel)
+      [] ev.op = "project_onto" -> LET a == DV(ev.a) b == DV(ev.b) g == DV(ev.got) bb == VSq(b) ab == VDot(a, b)
+                                       mag == DyMul(L1(a), DyMul(L1(b), L1(b))) IN      \* |a|_1 |b|_1^2 bounds every term
+                             AllFinite(ev.got) /\ \A i \in 1..Len(a) : DyNear(DyMul(g[i], bb), DyMul(b[i], ab), DyMul(DyScale(rel, 2), mag))
+      [] ev.op = "reject_from" -> LET a == DV(ev.a) b == DV(ev.b) g == DV(ev.got) bb == VSq(b) ab == VDot(a, b)
+                                      mag == DyMul(L1(a), DyMul(L1(b), L1(b))) IN
+                             AllFinite(ev.got) /\ \A i \in 1..Len(a) : DyNear(DyMul(g[i], bb), DySub(DyMul(a[i], bb), DyMul(b[i], ab)), DyMul(DyScale(rel, 2), mag))
+
+\* ---- vector slerp at the nine parameters j/8 (C12): directions as for quaternions (no arc flip), lengths interpolated linearly ----
+\* logged next to the operands: the normalised operands ah, bh, the results r_j, their directions d_j and lengths l_j, and the
+\* operand lengths la, lb -- every one of them an output of the library, tied to the operands by the relations below
+UnitAlong(x, xh, t) == /\ DyNear(VSq(xh), Dy1, t)
+                       /\ DyLe(Lagrange(x, xh), DyMul(DySq(t), VSq(x)))
+                       /\ DyIsPos(VDot(x, xh))
+LenOf(x, lx, rel) == ~DyIsNeg(lx) /\ DyNear(DySq(lx), VSq(x), DyMul(rel, VSq(x)))
+VSlerp8Ok(ev) ==
+    LET p == P(ev) t == SlerpTol(ev) rel == DyPow2(6 - p)
+        a == DV(ev.a) b == DV(ev.b) ah == DV(ev.ah) bh == DV(ev.bh)
+        la == DecDy(ev.la) lb == DecDy(ev.lb) IN
+    /\ Len(ev.r) = 9 /\ \A j \in 1..9 : AllFinite(ev.r[j]) /\ AllFinite(ev.d[j]) /\ IsFiniteWire(ev.l[j])
+    /\ UnitAlong(a, ah, t) /\ UnitAlong(b, bh, t) /\ LenOf(a, la, rel) /\ LenOf(b, lb, rel)
+    /\ LET r == [j \in 1..9 |-> DV(ev.r[j])]
+           d == [j \in 1..9 |-> DV(ev.d[j])]
+           l == [j \in 1..9 |-> DecDy(ev.l[j])]
+           c == VDot(ah, d[2])
+           D == VDot(ah, bh) IN
+       /\ \A j \in 1..9 : UnitAlong(r[j], d[j], t) /\ LenOf(r[j], l[j], rel)
+       /\ DyNear(Ch(ev, 8, c), D, t)
+       /\ \A j \in 0..8 : /\ DyNear(VDot(ah, d[j + 1]), Ch(ev, j, c), t)                 \* the angle from the start is j/8 of the total
+                          /\ DyNear(VDot(bh, d[j + 1]), Ch(ev, 8 - j, c), t)
+                          \* the length is interpolated linearly: 8 l_j = (8 - j) la + j lb
+                          /\ DyNear(DyScale(l[j + 1], 3), DyAdd(DyMul(DyInt(8 - j), la), DyMul(DyInt(j), lb)), DyMul(DyScale(t, 3), DyAdd(la, lb)))
+
 Ok(ev) ==
     CASE ev.op = "normalize" -> NormalizeOk(ev)
       [] ev.op = "angle_parallel" -> AngleParallelOk(ev)
       [] ev.op = "move_towards" -> MoveOk(ev)
       [] ev.op = "slerp8" -> Slerp8Ok(ev)
+      [] ev.op = "vslerp8" -> VSlerp8Ok(ev)
       [] ev.op = "rot_reach" -> RotReachOk(ev)
       [] ev.op = "view" -> ViewOk(ev)
       [] ev.op = "euler" -> EulerOk(ev)
+      [] ev.op \in {"length", "distance", "length_recip", "project_onto", "reject_from"} -> SqrtRelOk(ev)
       [] ev.op = "quat_mat" -> QuatMatOk(ev)
       [] ev.op = "proj" -> ProjOk(ev)
       [] OTHER -> FALSE
